@@ -108,7 +108,10 @@ pub fn check_on(c: &Case, ctx: &mut Ctx, ind: &mut Ind) -> Result<(), Failure> {
             let x = c.xs[i].0;
             fp.f(x);
             big = big.max(x.abs());
-            (ind.next_scalar(x), RawBar::flat(x, 0.0), x)
+            // mixed use of both paths on one instance: a flat bar stands for the scalar (not where the typical
+            // price (x+x+x)/3 of such a bar is itself not representable)
+            let via_bar = crate::tele::scalar_here() && x.abs() < 5.0e307;
+            (if via_bar { ind.next_bar(&RawBar::flat(x, 0.0)) } else { ind.next_scalar(x) }, RawBar::flat(x, 0.0), x)
         } else {
             let mut b = c.bars[i];
             // mixed use of both paths on one instance (tele.rs): this step goes through next(close); the
